@@ -20,13 +20,16 @@ if repo != "/repo":
     work = "/tmp/miri_tier." + os.path.basename(repo)
     shutil.rmtree(work, ignore_errors=True); shutil.copytree(src, work, ignore=shutil.ignore_patterns("target"))
     t = open(work + "/Cargo.toml").read().replace('path = "/repo"', f'path = "{repo}"'); open(work + "/Cargo.toml", "w").write(t)
-# (mode args, preemption rate, number of miri seeds)
+NOSTD = ["--no-default-features", "--target-dir", "target/nostd"]
+# (mode args, preemption rate, number of miri seeds[, extra cargo arguments])
 if prop == "C18":
     batches = [(["%d" % (vseed * 11 + 1), "3"], "0.05", 16), (["%d" % (vseed * 11 + 2), "2"], "0.01", 32), (["%d" % (vseed * 11 + 3), "2"], "0.003", 32), (["%d" % (vseed * 11 + 4), "2", "hammer"], "0.003", 32),
-               (["%d" % (vseed * 11 + 5), "3", "clones"], "0.05", 48), (["%d" % (vseed * 11 + 6), "4", "clones"], "0.05", 32), (["%d" % (vseed * 11 + 7), "3", "clones"], "0.01", 32)]
+               (["%d" % (vseed * 11 + 5), "3", "clones"], "0.05", 48), (["%d" % (vseed * 11 + 6), "4", "clones"], "0.05", 32), (["%d" % (vseed * 11 + 7), "3", "clones"], "0.01", 32),
+               # blake3 built as a no_std crate (a third feature set; no hooks, no detection cache, no update_reader)
+               (["%d" % (vseed * 11 + 8), "3"], "0.05", 48, NOSTD), (["%d" % (vseed * 11 + 9), "3", "clones"], "0.05", 16, NOSTD)]
     if tier == "quick":
         # every-change budget: clones of one reader / hasher used on three threads, and the disjoint-instance programs
-        batches = [(["%d" % (vseed * 11 + 5), "3", "clones"], "0.05", 32), (["%d" % (vseed * 11 + 1), "3"], "0.05", 8)]
+        batches = [(["%d" % (vseed * 11 + 5), "3", "clones"], "0.05", 32), (["%d" % (vseed * 11 + 1), "3"], "0.05", 8), (["%d" % (vseed * 11 + 8), "3"], "0.05", 4, NOSTD)]
 elif prop == "C08":
     batches = [(["%d" % (vseed * 13 + k), "0", "join"], r, 12) for k, r in [(1, "0.05"), (2, "0.01"), (3, "0.003"), (4, "0.01")]]
 elif prop == "C07":
@@ -67,13 +70,15 @@ if prop == "C07":
                 "replay_cmd": f"cd {src} && RUSTFLAGS='--cfg blake3_team_blake3_verif -C target-feature=+sse2,+ssse3,+sse4.1,+avx,+avx2' cargo +nightly miri run --offline --features pure --target-dir target/intr -- {vseed * 100 + k} 0 intrinsics"}
         break
     samples.append({"program": "intrinsics", "workload_seeds": n, "ok": total})
-for args, rate, n in batches:
+for batch in batches:
+    args, rate, n = batch[:3]
+    extra = list(batch[3]) if len(batch) > 3 else []
     env = dict(os.environ, MIRIFLAGS=f"-Zmiri-many-seeds=0..{n} -Zmiri-preemption-rate={rate}", CARGO_NET_OFFLINE="true")
-    p = subprocess.run(["cargo", "+nightly", "miri", "run", "--offline", "--"] + args, cwd=work, env=env, capture_output=True, text=True)
+    p = subprocess.run(["cargo", "+nightly", "miri", "run", "--offline"] + extra + ["--"] + args, cwd=work, env=env, capture_output=True, text=True)
     out = p.stdout + p.stderr
     oks = len(re.findall(r"^ok ", out, re.M)); total += oks
     m = re.search(r"FAILING SEED: (\d+)", out)
-    samples.append({"program_args": args, "preemption_rate": rate, "miri_seeds": n, "seeds_ok": oks})
+    samples.append({"program_args": args, "preemption_rate": rate, "miri_seeds": n, "seeds_ok": oks, "cargo_args": extra})
     if m or p.returncode != 0:
         if not m and oks == 0 and "error: could not compile" in out or "miri is not installed" in out.lower():
             sys.stderr.write(out[-3000:]); print("HARNESS ERROR: the Miri tier could not run"); sys.exit(2)
@@ -81,7 +86,7 @@ for args, rate, n in batches:
         detail = next((l for l in out.splitlines() if "NOT-ISOLATED" in l or "NOT-DETERMINISTIC" in l or "Data race" in l or "Undefined Behavior" in l), why)
         viol = {"property": prop, "engine": "miri", "miri_seed": int(m.group(1)) if m else None, "preemption_rate": rate, "program_args": args,
                 "violation": {"property": prop, "class": "not-isolated" if prop == "C18" else "state-diverged", "detail": detail.strip()},
-                "replay_cmd": f"cd {src} && MIRIFLAGS='-Zmiri-seed={m.group(1) if m else 0} -Zmiri-preemption-rate={rate}' cargo +nightly miri run --offline -- " + " ".join(args)}
+                "replay_cmd": f"cd {src} && MIRIFLAGS='-Zmiri-seed={m.group(1) if m else 0} -Zmiri-preemption-rate={rate}' cargo +nightly miri run --offline " + " ".join(extra) + " -- " + " ".join(args)}
         break
 wall = time.time() - t0
 exitc = 0
